@@ -1,3 +1,179 @@
 package main
 
-func runVariantCatalogue(spec *PropSpec, repo, verif string) interface{} { return nil }
+import (
+	"encoding/json"
+	"fmt"
+	"os"
+	"os/exec"
+	"path/filepath"
+	"sort"
+	"strings"
+	"sync"
+)
+
+// Thorough tier: the seeded-variant catalogue. Each catalogued edit of /repo's current sources is
+// analysed (never executed) in a separate process through go/packages' overlay, and the confirmed
+// seeds under /verif/seeded/<id> whose property matches are applied to a scratch copy of the tree
+// (under $TMPDIR, removed immediately). Results are evidence of the checker's power on today's
+// code; they never change the property's verdict.
+
+type variant struct {
+	ID       string `json:"id"`
+	Property string `json:"property"`
+	File     string `json:"file"`
+	Old      string `json:"old"`
+	New      string `json:"new"`
+	Expect   string `json:"expect"`
+	Kind     string `json:"kind"`
+	Note     string `json:"note"`
+}
+
+type variantResult struct {
+	ID       string   `json:"id"`
+	Kind     string   `json:"kind"`
+	Outcome  string   `json:"outcome"` // detected | detected-other-rule | MISSED | silent (benign ok) | FALSE-ALARM | skipped | invalid
+	Expect   string   `json:"expect,omitempty"`
+	Reported []string `json:"reported,omitempty"`
+	Note     string   `json:"note,omitempty"`
+}
+
+func runVariantCatalogue(spec *PropSpec, repo, verif string) interface{} {
+	self, err := os.Executable()
+	if err != nil {
+		return map[string]string{"error": err.Error()}
+	}
+	var cat struct {
+		Variants []variant `json:"variants"`
+	}
+	b, err := os.ReadFile(filepath.Join(verif, "qfcheck", "variants", "catalogue.json"))
+	if err != nil {
+		return map[string]string{"error": err.Error()}
+	}
+	if err := json.Unmarshal(b, &cat); err != nil {
+		return map[string]string{"error": err.Error()}
+	}
+	tmp, err := os.MkdirTemp("", "qfcheck-variants-")
+	if err != nil {
+		return map[string]string{"error": err.Error()}
+	}
+	defer os.RemoveAll(tmp)
+
+	type job struct {
+		res  *variantResult
+		args []string
+		prep func() error
+	}
+	var jobs []*job
+	for _, v := range cat.Variants {
+		if v.Property != spec.ID {
+			continue
+		}
+		v := v
+		r := &variantResult{ID: v.ID, Kind: v.Kind, Expect: v.Expect, Note: v.Note}
+		src, err := os.ReadFile(filepath.Join(repo, v.File))
+		if err != nil || strings.Count(string(src), v.Old) != 1 {
+			r.Outcome = "skipped"
+			r.Note = "the edited text no longer occurs exactly once in " + v.File + " (the tree changed)"
+			jobs = append(jobs, &job{res: r})
+			continue
+		}
+		ov := filepath.Join(tmp, v.ID+".go")
+		j := &job{res: r, args: []string{"-property", spec.ID, "-tier", "quick", "-no-evidence", "-repo", repo, "-verif", verif, "-overlay", v.File + "=" + ov}}
+		j.prep = func() error { return os.WriteFile(ov, []byte(strings.Replace(string(src), v.Old, v.New, 1)), 0o644) }
+		jobs = append(jobs, j)
+	}
+	// confirmed seeds for this property
+	seedDirs, _ := filepath.Glob(filepath.Join(verif, "seeded", spec.ID+"-*"))
+	sort.Strings(seedDirs)
+	for _, sd := range seedDirs {
+		sd := sd
+		id := "seed:" + filepath.Base(sd)
+		r := &variantResult{ID: id, Kind: "break", Note: "independent sub-agent mutant, confirmed to break the property while passing the suite"}
+		dst := filepath.Join(tmp, filepath.Base(sd))
+		j := &job{res: r, args: []string{"-property", spec.ID, "-tier", "quick", "-no-evidence", "-repo", dst, "-verif", verif}}
+		j.prep = func() error {
+			if out, err := exec.Command("cp", "-r", repo, dst).CombinedOutput(); err != nil {
+				return fmt.Errorf("copy: %v %s", err, out)
+			}
+			os.RemoveAll(filepath.Join(dst, ".git"))
+			cmd := exec.Command("git", "apply", filepath.Join(sd, "patch.diff"))
+			cmd.Dir = dst
+			if out, err := cmd.CombinedOutput(); err != nil {
+				return fmt.Errorf("patch does not apply to the current tree: %s", strings.TrimSpace(string(out)))
+			}
+			return nil
+		}
+		jobs = append(jobs, j)
+	}
+	sem := make(chan struct{}, 8)
+	var wg sync.WaitGroup
+	for _, j := range jobs {
+		if j.args == nil {
+			continue
+		}
+		wg.Add(1)
+		go func(j *job) {
+			defer wg.Done()
+			sem <- struct{}{}
+			defer func() { <-sem }()
+			if err := j.prep(); err != nil {
+				j.res.Outcome = "skipped"
+				j.res.Note = err.Error()
+				return
+			}
+			out, _ := exec.Command(self, j.args...).CombinedOutput()
+			text := string(out)
+			if strings.Contains(text, "cannot analyse") {
+				j.res.Outcome = "invalid"
+				j.res.Note = "the edited tree does not type-check; not a valid variant"
+				return
+			}
+			viol := strings.Contains(text, "\nVIOLATION ") || strings.HasPrefix(text, "VIOLATION ")
+			for _, line := range strings.Split(text, "\n") {
+				line = strings.TrimSpace(line)
+				if strings.HasPrefix(line, "VIOLATED ") || strings.HasPrefix(line, "UNDECIDED ") {
+					f := strings.Fields(line)
+					if len(f) > 1 && len(j.res.Reported) < 4 {
+						j.res.Reported = append(j.res.Reported, f[1])
+					}
+				}
+			}
+			switch {
+			case j.res.Kind == "benign" && !viol:
+				j.res.Outcome = "silent"
+			case j.res.Kind == "benign":
+				j.res.Outcome = "FALSE-ALARM"
+			case !viol:
+				j.res.Outcome = "MISSED"
+			default:
+				j.res.Outcome = "detected"
+				if j.res.Expect != "" {
+					named := false
+					for _, k := range j.res.Reported {
+						if strings.HasPrefix(k, j.res.Expect+"|") {
+							named = true
+						}
+					}
+					if !named {
+						j.res.Outcome = "detected-other-rule"
+					}
+				}
+			}
+		}(j)
+	}
+	wg.Wait()
+	var results []*variantResult
+	counts := map[string]int{}
+	for _, j := range jobs {
+		results = append(results, j.res)
+		counts[j.res.Outcome]++
+	}
+	fmt.Printf("variants for %s: %v\n", spec.ID, counts)
+	for _, r := range results {
+		if r.Outcome == "MISSED" || r.Outcome == "FALSE-ALARM" {
+			fmt.Printf("  variant %s: %s\n", r.ID, r.Outcome)
+		}
+	}
+	return map[string]interface{}{"summary": counts, "results": results,
+		"note": "variants are analysed through an overlay / scratch copy, never executed; they document detection power and do not affect the verdict"}
+}
